@@ -788,7 +788,8 @@ class MemoryPathIO(AbstractPathIO):
             node = self.get_node(path)
             if node is None:
                 parent = self.get_node(path.parent)
-                if parent is None or parent.type != "dir":
+                # as on a file system: "r+b" does not create the file
+                if parent is None or parent.type != "dir" or mode == "r+b":
                     raise FileNotFoundError
                 new_node = Node("file", path.name, content=io.BytesIO())
                 parent.content.append(new_node)
@@ -839,6 +840,8 @@ class MemoryPathIO(AbstractPathIO):
                 raise FileNotFoundError
             if dparent.type != "dir":
                 raise NotADirectoryError
+            if source in destination.parents:
+                raise OSError("can not move directory into itself")
             for i, node in enumerate(sparent.content):
                 if node.name == source.name:
                     sparent.content.pop(i)
